@@ -104,7 +104,12 @@ fn through_door<T: Target, V: Carrier>(door: Door, scene: &Scene, faces: &[Tri<u
         Door::Render => render(faces, verts, sh, (), vp, target, ctx),
         Door::Batch => {
             let b = Batch::new().faces(faces).vertices(verts).uniform(()).viewport(vp);
-            if (faces.len() + l as usize + t as usize) % 2 == 0 {
+            // which history a scene gets is decided by a hash of its first vertices (every history for about a third of the scenes
+            // of every shape, size and viewport): 0 = none (the setters in one of eight orders), 1 = the same geometry rendered
+            // twice, 2 = other geometry rendered first, then replaced
+            let hsh = verts.iter().take(3).flat_map(|v| v.pos.0).fold(faces.len() as u32, |a, c| a.wrapping_mul(31).wrapping_add(c.to_bits() >> 13).rotate_left(5));
+            let mode = hsh % 3;
+            if mode != 0 {
                 // history: the batch has already rendered once - into a scratch colour buffer, under a scratch context and
                 // with another shader instance - before it is pointed at the real target ("a batch can be freely reused")
                 let mut scratch: Buf2<u32> = Buf2::new((scene.bw, scene.bh));
@@ -112,7 +117,7 @@ fn through_door<T: Target, V: Carrier>(door: Door, scene: &Scene, faces: &[Tri<u
                 let warm = WrapShader::<V> { inner: AttrShader::new(Discard::Never), _v: std::marker::PhantomData };
                 // ... and with other geometry: a single face over six scratch vertices, replaced afterwards
                 let wv: Vec<Vtx> = (0..6).map(|k| vertex(ClipVec::from([[-0.5f32, -0.5, 0.0, 1.0], [0.5, -0.5, 0.0, 1.0], [0.0, 0.5, 0.0, 1.0]][k % 3]), 0.5)).collect();
-                if (faces.len() + r as usize) % 2 == 0 {
+                if mode == 1 {
                     // ... the SAME geometry: rendered into the scratch target first, then - nothing set again but shader, target
                     // and context - into the real one (rendering may not use anything up)
                     let mut b1 = b.shader(warm).target(&mut scratch).context(&sctx);
@@ -122,7 +127,35 @@ fn through_door<T: Target, V: Carrier>(door: Door, scene: &Scene, faces: &[Tri<u
                 let mut b1 = b.faces([Tri([3usize, 4, 5])]).vertices(&wv[..]).shader(warm).target(&mut scratch).context(&sctx);
                 b1.render();
                 b1.faces(faces).vertices(verts).shader(sh.clone()).target(target).context(ctx).render()
-            } else { b.shader(sh.clone()).target(target).context(ctx).render() }
+            } else {
+                // no history: the seven setters in one of eight orders (each setter must leave what the others have set alone;
+                // every setter but the shader, which needs the vertex and uniform types, is first in one order; most are last in one), and the geometry also by way of mesh()-less
+                // re-setting: faces or vertices set twice, the first time with something else
+                drop(b);
+                macro_rules! chain {
+                    ($b:expr;) => { $b };
+                    ($b:expr; F $($r:ident)*) => { chain!($b.faces(faces); $($r)*) };
+                    ($b:expr; V $($r:ident)*) => { chain!($b.vertices(verts); $($r)*) };
+                    ($b:expr; U $($r:ident)*) => { chain!($b.uniform(()); $($r)*) };
+                    ($b:expr; P $($r:ident)*) => { chain!($b.viewport(vp); $($r)*) };
+                    ($b:expr; S $($r:ident)*) => { chain!($b.shader(sh.clone()); $($r)*) };
+                    ($b:expr; T $($r:ident)*) => { chain!($b.target(&mut *target); $($r)*) };
+                    ($b:expr; C $($r:ident)*) => { chain!($b.context(ctx); $($r)*) };
+                    // decoys, overwritten by a later setter of the same kind
+                    ($b:expr; f $($r:ident)*) => { chain!($b.faces([Tri([0usize, 0, 0]); 2]); $($r)*) };
+                    ($b:expr; p $($r:ident)*) => { chain!($b.viewport(viewport(pt2(0u32, 0)..pt2(1, 1))); $($r)*) };
+                }
+                match hsh / 3 % 8 {
+                    0 => chain!(Batch::new(); F V U P S T C).render(),
+                    1 => chain!(Batch::new(); C T P U V S F).render(),
+                    2 => chain!(Batch::new(); V F T C P U S).render(),
+                    3 => chain!(Batch::new(); U V S C F T P).render(),
+                    4 => chain!(Batch::new(); P U C V S F T).render(),
+                    5 => chain!(Batch::new(); T P F V C U S).render(),
+                    6 => chain!(Batch::new(); V U S C T P F).render(),
+                    _ => chain!(Batch::new(); f p V U S T C F P).render(),
+                }
+            }
         }
         Door::Camera => {
             // through the public builder: frame = buffer size, viewport = requested rectangle, identity view and projection
